@@ -316,7 +316,7 @@ Lemma open_leg_to_parent_new shp p cleg cn :
 Proof.
   unfold open_leg_to_parent. cbn [is_root new_node parent negb].
   destruct (open_leg_ok _ cleg); cbn [negb]; [|discriminate].
-  cbn [perm children shape].
+  cbn [perm children shape new_node].
   destruct (move cleg 0 (seq 0 (length shp))) as [q|] eqn:Em; [|discriminate]. intros [= <-] Hc.
   cbn [parent children shape perm]. repeat split.
   destruct (ib_move_decomp _ _ _ _ Em (Nat.le_0_l _)) as (a & b & x & c0 & E1 & -> & Ha & Hb).
